@@ -878,6 +878,11 @@ class ServiceDiscover:
         self, entry: someip.header.SOMEIPSDEntry, addr: _T_SOCKADDR
     ) -> None:
         if not self.is_watching_service(entry):
+            if entry.ttl == 0:
+                # a service that is still stored from an earlier watch must not
+                # outlive its StopOffer: otherwise the stale entry would be replayed as
+                # 'offered' to the next listener. No-op if the service is not stored.
+                self.service_offer_stopped(addr, entry)
             return
         if entry.ttl == 0:
             self.service_offer_stopped(addr, entry)
